@@ -260,7 +260,8 @@ def plan(tier):
         # search between levels (reported as a cap)
         for v in members:
             cfg = HE.gen_scenario(v)
-            P.append((v["name"] + "-r", cfg, "bfs", dict(depth=3, budget=150000, reduced=True, variant=v, time=240)))
+            if v in (d1, d2, fw):
+                P.append((v["name"] + "-r", cfg, "bfs", dict(depth=3, budget=150000, reduced=True, variant=v, time=240)))
             P.append((v["name"], cfg, "dev", dict(H=8, k=1, variant=v)))
         for v in (d2, fw):
             cfg = HE.gen_scenario(v)
